@@ -431,6 +431,7 @@ impl Report {
 pub static PROGRESS: AtomicU64 = AtomicU64::new(0);
 pub static CASE: Mutex<(String, String)> = Mutex::new((String::new(), String::new()));
 pub static STALL_OUT: Mutex<Option<String>> = Mutex::new(None);
+pub static STALL_FILE: Mutex<Option<std::fs::File>> = Mutex::new(None);
 pub static WATCHDOG_PAUSED: AtomicBool = AtomicBool::new(false);
 
 /// sig: the signature a hang in this case gets, detail: replayable description
@@ -459,9 +460,19 @@ pub fn write_stall_and_exit(kind: &str) -> ! {
         Err(_) => ("?".to_string(), "?".to_string()),
     };
     let j = J::obj(vec![("kind", J::s(kind)), ("sig", J::s(&sig)), ("detail", J::s(&detail))]);
-    if let Ok(p) = STALL_OUT.lock() {
-        if let Some(p) = p.as_ref() {
-            let _ = std::fs::write(p, j.dump());
+    let mut written = false;
+    if let Ok(mut f) = STALL_FILE.try_lock() {
+        if let Some(f) = f.as_mut() {
+            use std::io::Write;
+            written = f.write_all(j.dump().as_bytes()).is_ok();
+            let _ = f.flush();
+        }
+    }
+    if !written {
+        if let Ok(p) = STALL_OUT.lock() {
+            if let Some(p) = p.as_ref() {
+                let _ = std::fs::write(p, j.dump());
+            }
         }
     }
     unsafe { libc::_exit(3) }
